@@ -230,6 +230,7 @@ type env struct {
 		BeginBlock(context.Context) error
 	}
 	cons      [nVals]sdk.ConsAddress
+	withChain bool // initial node with an active chain on which v3 has no account
 	rich      bool // richer alphabet: SJail for every validator, SchedRaise, two RaiseMin, two Adv2000
 	maxBig    int
 	maxBigPos int // Adv2000 only among the first maxBigPos operations of a path
@@ -812,7 +813,7 @@ func (e *env) ops(n *explore.Node) []explore.Op {
 // ---------------------------------------------------------------------------
 // state hash
 
-var hashPrefixes = [][]byte{[]byte("keep-alive/"), []byte("grace-period"), []byte("unjailed-snapshot"), []byte("IDs"), []byte("jail-reasons"), vtypes.PigeonStoreKey}
+var hashPrefixes = [][]byte{[]byte("keep-alive/"), []byte("grace-period"), []byte("unjailed-snapshot"), []byte("IDs"), []byte("jail-reasons"), vtypes.PigeonStoreKey, []byte("external-chain-info")}
 
 func (e *env) hash(n *explore.Node) string {
 	h := sha256.New()
@@ -839,6 +840,13 @@ func (e *env) hash(n *explore.Node) string {
 		fmt.Fprintf(h, "V%d:%v:%d:%s:%d:%d;", i, val.Jailed, val.Status, val.Tokens, val.UnbondingHeight, val.UnbondingTime.Unix())
 		info, err := e.w.App.SlashingKeeper.GetValidatorSigningInfo(ctx, e.cons[i])
 		fmt.Fprintf(h, "S:%v:%d:%v;", err == nil, info.JailedUntil.Unix(), info.Tombstoned)
+	}
+	// membership and shares of the current snapshot (decides whether the next
+	// snapshot build is worthy); its height / creation time are dropped
+	if snap, err := e.w.App.ValsetKeeper.GetCurrentSnapshot(ctx); err == nil && snap != nil {
+		for _, sv := range snap.Validators {
+			fmt.Fprintf(h, "N:%x:%s;", []byte(sv.Address), sv.ShareCount)
+		}
 	}
 	h.Write([]byte(n.Ghost.Key()))
 	return hex.EncodeToString(h.Sum(nil)[:16])
@@ -889,6 +897,7 @@ func newEnv(r *report.Run, j job, rich bool) *env {
 			panic(err)
 		}
 	}
+	e.withChain = strings.Contains(j.Name, ".r0.s60-20-10-10") || strings.HasPrefix(j.Name, "keyed.")
 	e.maxBig, e.maxBigPos, e.maxRaise = 1, 2, 1
 	if e.rich {
 		e.maxBig, e.maxRaise = 2, 2
@@ -966,6 +975,29 @@ func (e *env) setup() (main []*explore.Node, at1009 *explore.Node, f *explore.Fa
 		return nil, nil, f
 	}
 	main = append(main, &explore.Node{Ctx: ctxC, Ghost: gC, Path: []string{"<v3-jailed>"}})
+	if e.withChain {
+		// fourth initial node: in block 2990 an EVM chain is added and activated on
+		// which v0..v2 register an account and v3 does not: v3 stays bonded and
+		// unjailed (covered by the liveness check) but drops out of the next
+		// snapshot (built by the end-block of height 3000, which is also a
+		// liveness check). Keep-alives expire at 3009.
+		ctxD, gD := world.Fork(mid.Ctx), g0.Clone().(*ghost)
+		if f := e.advance(&ctxD, gD, 1981); f != nil {
+			return nil, nil, f
+		}
+		if err := e.w.AddChain(ctxD, "eth-main", 1, 1); err != nil {
+			return nil, nil, explore.Failf("harness:add-chain", "AddChain: %v", err)
+		}
+		for _, v := range e.w.Vals[:nVals-1] {
+			if err := e.w.RegisterAccounts(ctxD, v, nil, "eth-main"); err != nil {
+				return nil, nil, explore.Failf("harness:register-accounts", "RegisterAccounts(%s): %v", v.Name, err)
+			}
+		}
+		if f := e.advance(&ctxD, gD, 9); f != nil {
+			return nil, nil, f
+		}
+		main = append(main, &explore.Node{Ctx: ctxD, Ghost: gD, Path: []string{"<v3-no-chain-account>"}})
+	}
 	return main, mid, nil
 }
 
@@ -1138,7 +1170,7 @@ func setRule(r *report.Run) {
 	if r.Thorough() {
 		depth, ldepth = "4 (byte-0 address group: depth 6 for (60,20,10,10), depth 5 with the rich alphabet for the other two stake vectors)", "4"
 	}
-	r.Rule = fmt.Sprintf("per (address set of 4 operator addresses, stake vector): BFS to depth %s from three initial nodes at block 2999 (keep-alives expiring at 3009; staggered 3009/3009/3011/3010; v3 jailed since block 2990) and, for the multi-comma and keyed jobs, to depth %s from ladder seeds (v3 jailed 1..k times in succession, k <= 4 or 6) over KeepAlive(v, version) through the real message server with the version alphabet derived from the minimum M=vX.Y.Z in force (M, patch-1, patch+1, M-rc.1 as operations; minor/major +-1, M-0, git-describe form, M+build, rc+build, next-minor rc, bare X.Y.Z, short, garbage, empty, leading zero as probes on forks for v0 and v3) (signed txs for the keyed runs), Jail(v) (valset keeper), SJail(v) (slashing keeper), Unjail(v) (slashing keeper as MsgUnjail), Adv1, AdvTo10 (through the next liveness check), Adv31, Adv2000 (only among the first 2 operations of a path), RaiseMin (once)/LowerMin through the valset governance handler; base alphabet: SJail for v0,v1 only, one Adv2000; rich alphabet: SJail for every validator, SchedRaise, two RaiseMin, two Adv2000; every block runs the staking end-blocker, the valset EndBlock and the valset BeginBlock of the real application and the oracle; address sets: base 0x55*20 with byte p set to 0x00/0xff/0x2b/0x2c plus multi-comma addresses, two slot rotations; stake vectors (60,20,10,10),(30,30,30,10),(1,1,1,1),(2501,2500,2500,2499) x 10^6 ugrain and (251,250,250,249) x 10^5 ugrain (25 % protection boundary from both sides)", depth, ldepth)
+	r.Rule = fmt.Sprintf("per (address set of 4 operator addresses, stake vector): BFS to depth %s from three initial nodes at block 2999 (keep-alives expiring at 3009; staggered 3009/3009/3011/3010; v3 jailed since block 2990) plus, for the rotation-0 (60,20,10,10) jobs and the keyed jobs, a fourth one (an EVM chain activated in block 2990 on which v3 has no account, so that v3 is bonded and unjailed but leaves the valset snapshot rebuilt by the end-block of height 3000) and, for the multi-comma and keyed jobs, to depth %s from ladder seeds (v3 jailed 1..k times in succession, k <= 4 or 6) over KeepAlive(v, version) through the real message server with the version alphabet derived from the minimum M=vX.Y.Z in force (M, patch-1, patch+1, M-rc.1 as operations; minor/major +-1, M-0, git-describe form, M+build, rc+build, next-minor rc, bare X.Y.Z, short, garbage, empty, leading zero as probes on forks for v0 and v3) (signed txs for the keyed runs), Jail(v) (valset keeper), SJail(v) (slashing keeper), Unjail(v) (slashing keeper as MsgUnjail), Adv1, AdvTo10 (through the next liveness check), Adv31, Adv2000 (only among the first 2 operations of a path), RaiseMin (once)/LowerMin through the valset governance handler; base alphabet: SJail for v0,v1 only, one Adv2000; rich alphabet: SJail for every validator, SchedRaise, two RaiseMin, two Adv2000; every block runs the staking end-blocker, the valset EndBlock and the valset BeginBlock of the real application and the oracle; address sets: base 0x55*20 with byte p set to 0x00/0xff/0x2b/0x2c plus multi-comma addresses, two slot rotations; stake vectors (60,20,10,10),(30,30,30,10),(1,1,1,1),(2501,2500,2500,2499) x 10^6 ugrain and (251,250,250,249) x 10^5 ugrain (25 % protection boundary from both sides)", depth, ldepth)
 	r.Assumptions = []string{
 		"block time fixed at 2 s; only the staking end-blocker and the valset begin/end-block run per block (the other modules' end-blockers do not touch keep-alive, grace or jail-log state)",
 		"keep-alive boundary: a validator must be jailed only at checks with height > aliveUntil and must never be jailed at checks with height < aliveUntil; height == aliveUntil is left open (weaker reading of 'longer than the lifetime')",
@@ -1146,7 +1178,7 @@ func setRule(r *report.Run) {
 		"protection ('more than 25 % of bonded power', exact integer test 4p > T): readings differ in the power notion (tokens, or consensus power = tokens/10^6 truncated as Keeper.Jail uses), in whether the total includes validators still in status Bonded although jailed, and in how a validator that is not bonded is counted; must-jail is required only if the validator is unprotected under every reading, evaluated on the state after the check (at most one bonded unjailed validator counts as 'last active'); jailing (by the check or by Keeper.Jail) is forbidden only if protected under every reading",
 		"sentence reset threshold: code says max(30 min, 1.05 d), its comment says +20 %; between the two thresholds both the next step and the reset are accepted",
 		"a keep-alive with a valid semver version >= the minimum from an existing validator must be accepted (otherwise a responsive validator could be jailed); versions are compared by semver 2.0 precedence (pre-releases before their release, build metadata ignored); a malformed version string must be refused unless prefixing 'v' makes it a version not older than the minimum, in which case either outcome is accepted",
-		"state hash drops ContactedAt/PigeonVersion of keep-alive records (only read by the GetAlivePigeons query) and the valset snapshot/external-chain-info prefixes (not read by the keep-alive, grace or jailing code)",
+		"state hash drops ContactedAt/PigeonVersion of keep-alive records (only read by the GetAlivePigeons query) and, of the valset snapshots, everything but the current snapshot's members and shares",
 	}
 }
 
